@@ -68,8 +68,8 @@ theorem verylow_sentence (t : Tree) (h : WF t = true) : sentence (punctuationVer
 theorem verylow_WF (t : Tree) (h : WF t = true) : WF (punctuationVerylow t) = true :=
   (verylow_inv t h).WF h
 
-/-- the final `.` joins the constituent of token 5 -/
-example : (punctuationVerylow exT).kids.map leafNums = [[1, 2], [3, 4, 5, 6]] := by decide
+-- the final `.` joins the constituent of token 5
+#guard (punctuationVerylow exT).kids.map leafNums = [[1, 2], [3, 4, 5, 6]]
 
 /-! ## root -/
 
@@ -87,8 +87,8 @@ theorem root_sentence (t : Tree) (h : WF t = true) : sentence (punctuationRoot t
 theorem root_WF (t : Tree) (h : WF t = true) : WF (punctuationRoot t) = true :=
   (root_inv t h).WF h
 
-/-- all punctuation tokens end up below the root -/
-example : (punctuationRoot exT).kids.map leafNums = [[1], [3, 5], [2], [4], [6]] := by decide
+-- all punctuation tokens end up below the root
+#guard (punctuationRoot exT).kids.map leafNums = [[1], [3, 5], [2], [4], [6]]
 
 /-! ## symetrify -/
 
@@ -106,19 +106,18 @@ theorem sym_sentence (relc : Option Str) (t : Tree) (h : WF t = true) : sentence
 theorem sym_WF (relc : Option Str) (t : Tree) (h : WF t = true) : WF (punctuationSymetrify relc t) = true :=
   (sym_inv relc t h).WF h
 
-/-- example with a quote pair split over two constituents:
-    `(S (NP (" 1) (A 2)) (VP (B 3) (" 4)))` -/
+/-- example with a quote pair split over two constituents: `(S (" 1) (NP (A 2) (" 3)) (B 4))` -/
 def exS : Tree :=
   node { label := "S".toList, uid := some 0 } [
-    node { label := "NP".toList, uid := some 1 } [
-      leaf 1 { label := "Q".toList, word := some "\"".toList, uid := some 2 },
-      leaf 2 { label := "A".toList, word := some "a".toList, uid := some 3 }],
-    node { label := "VP".toList, uid := some 4 } [
-      leaf 3 { label := "B".toList, word := some "b".toList, uid := some 5 },
-      leaf 4 { label := "Q".toList, word := some "\"".toList, uid := some 6 }]]
+    leaf 1 { label := "Q".toList, word := some "\"".toList, uid := some 1 },
+    node { label := "NP".toList, uid := some 2 } [
+      leaf 2 { label := "A".toList, word := some "a".toList, uid := some 3 },
+      leaf 3 { label := "Q".toList, word := some "\"".toList, uid := some 4 }],
+    leaf 4 { label := "B".toList, word := some "b".toList, uid := some 5 }]
 
 example : WF exS = true := by decide
-/-- the opening quote is pulled next to the closing one -/
-example : (punctuationSymetrify none exS).kids.map leafNums = [[2], [3, 4, 1]] := by decide
+example : uidsOK exS = true := by decide
+-- the opening quote is pulled next to the closing one
+#guard (punctuationSymetrify none exS).kids.map leafNums = [[2, 3, 1], [4]]
 
 end TT.Props.C13
